@@ -161,8 +161,11 @@ impl Ty {
             t => t.clone(),
         }
     }
+    /// number of type nodes as chalk's size limit counts them (a `dyn Trait` also contains its
+    /// bound's `Self` type)
     pub fn size(&self) -> usize {
-        1 + self.args().iter().map(|t| t.size()).sum::<usize>()
+        let own = if matches!(self, Ty::Bi(Bi::Dyn(_), _)) { 2 } else { 1 };
+        own + self.args().iter().map(|t| t.size()).sum::<usize>()
     }
     pub fn depth(&self) -> usize {
         1 + self.args().iter().map(|t| t.depth()).max().unwrap_or(0)
